@@ -873,8 +873,8 @@ def check(run):
                 g = impl_obs(o)
                 if m != g:
                     ws = wire_steps(seq, texts)
-                    run.violation("tie-broken", "%s: model and implementation disagree at step %d (%s) under parser=%s splitting=%s primary_reads=%s default_role=%s: model (role,parser,primary_reads)=%s impl=%s"
-                                  % (what, j, ws[j].get("sql", ws[j]["op"])[:120], c[0], c[1], c[2], c[3], m, g),
+                    run.violation("tie-broken", "%s: model and implementation disagree at step %d (%s) under parser=%s splitting=%s primary_reads=%s default_role=%s plugins=%s: model (role,parser,primary_reads)=%s impl=%s"
+                                  % (what, j, ws[j].get("sql", ws[j]["op"])[:120], c[0], c[1], c[2], c[3], c[4], m, g),
                                   {"correspondence": "Route/Model.v session_trace vs QueryRouter (harness bin router)", "input": {"settings": settings_json(c), "steps": ws},
                                    "step": j, "model": list(m), "impl": list(g), "ast": [asts[s["_k"][1]] if s["_k"][0] == "msg" else None for s in seq]},
                                   found_input=False)
@@ -919,8 +919,8 @@ def check(run):
                 if kind == "write-not-primary" and F23_RE.search(ws[j].get("sql", "")):
                     f23.append({"settings": settings_json(c), "steps": ws, "step": j, "role": outs[j]["state"]["role"]})
                     continue
-                run.violation("counterexample", "%s at step %d: %r under parser=%s splitting=%s primary_reads=%s default_role=%s"
-                              % (text, j, ws[j].get("sql", ws[j]["op"])[:200], c[0], c[1], c[2], c[3]),
+                run.violation("counterexample", "%s at step %d: %r under parser=%s splitting=%s primary_reads=%s default_role=%s plugins=%s"
+                              % (text, j, ws[j].get("sql", ws[j]["op"])[:200], c[0], c[1], c[2], c[3], c[4]),
                               {"input": {"settings": settings_json(c), "steps": ws, "labels": [labels[s["_k"][1]] if s["_k"][0] == "msg" else None for s in seq]},
                                "monitor": kind, "step": j, "impl": [list(impl_obs(o)) for o in outs]})
                 stop = True
@@ -987,7 +987,9 @@ def check(run):
     run.cov["rule"] = ("statements: %d boundary forms (incl. every former witness) + %d non-query statements + grammar-generated queries (depth <= %d: joins, derived tables, scalar/EXISTS/IN sub-queries, CTEs read-only and "
                        "data-modifying, set operations, parenthesised arms, FOR UPDATE/SHARE/NO KEY UPDATE/KEY SHARE, INTO); messages of 1-3 statements in every order, empty messages, messages the parser rejects; "
                        "sessions: every message alone (Q or P framing), 72 command-pair boundary sessions, random sessions of 2-4 messages with SET SERVER ROLE / SET PRIMARY READS in between, Bind steps; "
-                       "each session under all 24 combinations of parser x splitting x primary_reads x default_role, a share again with automatic_sharding_key on; "
+                       "empty / comment-only / whitespace messages (Q and Parse) right after every SET SERVER ROLE value followed by three more messages; "
+                       "each session under all 24 combinations of parser x splitting x primary_reads x default_role plus 12 with a [plugins] section (table_access on an unrelated table: the session stays parsed "
+                       "after SET SERVER ROLE), a share again with automatic_sharding_key on; "
                        "sharded messages (automatic_sharding_key data.id and *.id, 3 shards): 1-3 statements over the sharded table in every order, reads on different shards before/after writes, key-column updates, "
                        "compared on (role, shard, Err) with infer_sh fed with the real per-statement shard outcome; wire: sessions of 9-20 transactions (simple / multi-statement / BEGIN..COMMIT / Parse-Bind-Execute-Sync / "
                        "two-Parse batches / parser-rejected) with SET SERVER ROLE / SET PRIMARY READS followed by 3-5 consecutive transactions, on 6 pool shapes (1-3 shards, primary + 0-2 replicas) x default_shard "
